@@ -412,9 +412,10 @@ pub fn gen_schema(t: &mut Tape) -> SchemaAst {
             }
         }
         let mut np = t.draw(4);
-        let inherits_props = imp.iter().any(|j| !own_props[*j].is_empty());
-        if np == 0 && !inherits_props {
-            // a type definition must have at least one field
+        let n_own_edges = t.draw(3);
+        let inherits_fields = imp.iter().any(|j| !own_props[*j].is_empty() || own_edges_n[*j] > 0);
+        if np == 0 && !inherits_fields && n_own_edges == 0 {
+            // a type definition must have at least one field (a type with edges only is fine)
             np = 1;
         }
         let mut props = vec![];
@@ -424,7 +425,7 @@ pub fn gen_schema(t: &mut Tape) -> SchemaAst {
             prop_ctr += 1;
         }
         own_props.push(props);
-        own_edges_n.push(t.draw(3));
+        own_edges_n.push(n_own_edges);
         types.push(TypeDef {
             name,
             is_interface,
